@@ -21,3 +21,15 @@ func (s *KVSnapshot) VerifBatchGetKeysByRegions(bo *retry.Backoffer, keys [][]by
 	})
 	return m, err
 }
+
+// VerifBackoff returns copies of the back-off statistics accumulated by recordBackoffInfo.
+func (rs *SnapshotRuntimeStats) VerifBackoff() (sleep, times map[string]int) {
+	sleep, times = map[string]int{}, map[string]int{}
+	for k, v := range rs.backoffSleepMS {
+		sleep[k] = v
+	}
+	for k, v := range rs.backoffTimes {
+		times[k] = v
+	}
+	return
+}
